@@ -32,7 +32,7 @@ CONSTANTS
     LazyTTLs,       \* lazy_cache_ttl values explored (0 = off)
     Ticks, MaxNow, MaxOps,
     NxMax, SfMax, EmptyMax, StaleTTL,   \* 30, 5, 300, 5
-    TTLMode,        \* "stored" (property) | "expiry" | "noclamp"   (deviations)
+    TTLMode,        \* "stored" (property) | "expiry" | "noclamp" | "staleaged"  (deviations)
     Admit,          \* "rule" (property) | "tc" | "rcode" | "zero" | "optttl" | "nxlong"  (deviations)
     Dedup,          \* TRUE (property): one refresh per key in flight
     Alias,          \* "none" (property) | "store" | "hit" (shared message) | "id" (ID not rewritten)
@@ -128,7 +128,8 @@ Aged(e) ==
     [j \in DOMAIN e.r.ttls |->
         CASE TTLMode = "stored"  -> Max2(1, e.r.ttls[j] - (now - e.stored))
           [] TTLMode = "noclamp" -> Max2(0, e.r.ttls[j] - (now - e.stored))
-          [] TTLMode = "expiry"  -> Max2(1, e.msgExp - now)]
+          [] TTLMode = "expiry"  -> Max2(1, e.msgExp - now)
+          [] OTHER               -> Max2(1, e.r.ttls[j] - (now - e.stored))]
 
 Find(i, k) == {e \in cache[i] : e.key = k /\ now < e.cacheExp}
 
@@ -144,7 +145,7 @@ View(i, k) ==
          THEN [res |-> "hit", owner |-> e.owner, id |-> e.id, ttls |-> Aged(e), cont |-> e.cont, idok |-> Alias # "id", i |-> i]
          ELSE IF lazy > 0
          THEN [res |-> "stale", owner |-> e.owner, id |-> e.id,
-               ttls |-> [j \in DOMAIN e.r.ttls |-> StaleTTL], cont |-> e.cont, idok |-> TRUE, i |-> i]
+               ttls |-> IF TTLMode = "staleaged" THEN Aged(e) ELSE [j \in DOMAIN e.r.ttls |-> StaleTTL], cont |-> e.cont, idok |-> TRUE, i |-> i]
          ELSE Miss
 
 Refreshing(i, k) == \E f \in inflight : f.i = i /\ f.key = k
@@ -243,7 +244,7 @@ Mutate(h) ==
                 THEN [cache EXCEPT ![hd.i] = {IF e.id = hd.id THEN [e EXCEPT !.cont = "mut"] ELSE e : e \in @}]
                 ELSE cache
     /\ obs' = Ack("mutated")
-    /\ H([a |-> "Mutate", h |-> h, now |-> now])
+    /\ H([a |-> "Mutate", h |-> h, hd |-> handles[h], now |-> now])
     /\ UNCHANGED <<lazy, now, serial, inflight, handles, dump, dumpOf, mirror, lastq>>
 
 ------------------------------------------------------------------------------
